@@ -375,6 +375,8 @@ def c11(ctx):
     reasm_component(ctx, "C11")
     files = xfer_traces(ctx, ["zwin", "pr", "lossy", "reorder", "il", "basic"], 160, 4000)
     files += directed_traces(ctx, "zwdir", 6)
+    # an I-FORWARD-TSN (from a foreign stack) that skips an ordered and an unordered message of one stream at once
+    files += directed_traces(ctx, "foreign", 2, {"VF_ONLY": "ifwd-both"})
     # stream resets with a reader that has not read everything yet (known finding F23 reproduces here)
     files += reconfig_family(ctx, light=ctx.quick)
     ctx.validate(files)
@@ -424,6 +426,7 @@ def c07(ctx):
     reasm_component(ctx, "C07", replay=not ctx.quick)
     files = xfer_traces(ctx, ["pr", "pr", "pr", "lossy", "il"], 120, 5000)
     files += directed_traces(ctx, "prdir", 8 if ctx.quick else 16, {"VF_FULL": "0" if ctx.quick else "1"})
+    files += directed_traces(ctx, "foreign", 2, {"VF_ONLY": "ifwd-both"})
     files += transfer_family(ctx, design=False, pr=True)   # Transfer.tla environment schedules under partial reliability
     files += prsctp_family(ctx)
     ctx.exhaustive = True
@@ -533,6 +536,8 @@ def c17(ctx):
     # "interleaved framing exactly when both enabled it" also for associations started from exchanged tokens, with
     # and without association options that contradict the token (hs-tokens-*, hs-tokens-mis-*)
     files += directed_traces(ctx, "hs-special", 1)
+    # a peer that lists I-DATA and FORWARD-TSN but not I-FORWARD-TSN
+    files += directed_traces(ctx, "foreign", 2, {"VF_ONLY": "ext-no-ifwd"})
     ctx.validate(files)
 
 
@@ -580,6 +585,8 @@ def handshake_family(ctx, opts_quick=(0, 5, 10, 15), nbeh_quick=40, nbeh_thoroug
 @check("C04", ["C04_"])
 def c04(ctx):
     files = handshake_family(ctx)
+    # a peer that lists I-DATA and FORWARD-TSN but not I-FORWARD-TSN: agreement on the forward-TSN variant
+    files += directed_traces(ctx, "foreign", 2, {"VF_ONLY": "ext-no-ifwd"})
     ctx.validate(files)
     ctx.rule = ("every (role assignment x option combination) case: exhaustive TLC of Handshake.tla (<=2 losses/delays, <=1 duplicate, all "
                 "orders) and TLC-simulated fault schedules replayed on the real code at 4 initial-TSN pairs; plus silent-peer, closed-transport "
@@ -867,8 +874,11 @@ def lifecycle_design(ctx):
     and `transport closed ~> every goroutine and caller done` under weak fairness. Bound to the code by outcomes:
     its counterexamples are turned into driver scenarios (hs-late-after-fail) and every scenario of the crash /
     storm / handshake families is watched for certified deadlocks and leaked goroutines."""
-    for c in (("q1", "q2", "q3", "q4") if ctx.quick else ("q1", "q2", "q3", "q4", "full")):
-        ctx.tlc_design("Lifecycle", "Lifecycle_%s.cfg" % c, workers=8 if ctx.quick else L.NCPU, timeout=7200, heap="16g" if c == "full" else "8g")
+    # thorough: t2 = two Close callers + blocked reader, 2 packets (4.19 M states, 7.5 min on 6 busy cores), t1 = Close + Abort +
+    # reader, 2 packets (7.98 M states, 15 min). The former "full" configuration (both) exceeds 17 M states after 20 min
+    # without finishing and is not part of a tier.
+    for c in (("q1", "q2", "q3", "q4") if ctx.quick else ("q1", "q2", "q3", "q4", "t2", "t1")):
+        ctx.tlc_design("Lifecycle", "Lifecycle_%s.cfg" % c, workers=8 if ctx.quick else L.NCPU, timeout=5400, heap="16g" if c.startswith("t") else "8g")
 
 
 @check("C09", ["C09_"])
@@ -967,6 +977,8 @@ EXTRA["C20"] = ["C09_Deadlock", "C09_CallsReturn", "C09_NoLeak", "C09_NoWriteAft
 def c10(ctx):
     files = transfer_family(ctx)
     files += xfer_traces(ctx, ["zwin", "lossy", "basic", "tiny", "big", "il"], 160, 4000)
+    # what pion itself never sends: a SACK without progress that takes window back
+    files += directed_traces(ctx, "foreign", 3, {"VF_ONLY": "window-shrink"})
     ctx.validate(files)
 
 
